@@ -56,6 +56,9 @@ def session(rng, nops):
         k = rng.random()
         if k < 0.5:
             ops += ["a update", "a get pipe", "a get tx_full", "a get irq_dr", "a get irq_ds", "a get irq_df"]
+        elif k < 0.65:
+            # "... or any other transaction": the cached accessors directly after the call, without an update()
+            ops += rng.sample(["a get pipe", "a get tx_full", "a get irq_dr", "a get irq_ds", "a get irq_df"], 3)
         if k < 0.8:
             ops += [rng.choice(["a available", "a any", "a fifo T N", "a fifo F N", "a fifo T T", "a fifo T F", "a fifo F T",
                                 "a fifo F F", "a get last_tx_arc"])]
@@ -92,6 +95,7 @@ class C10(PropCheck):
                 continue
             names, ops = l.split(" ; "), parse_out(io)
             what = None
+            stale, last_tx = None, None
             fresh = False   # the cached status byte describes the current state (right after update())
             irq_mask = 0    # ghost: CONFIG bits 6..4 as the last interrupt_config() left them (0 = all events enabled)
             for k, (name, o) in enumerate(zip(names, ops)):
@@ -116,12 +120,24 @@ class C10(PropCheck):
                 res = o["res"]
                 if t[0] != "a":
                     fresh = False
+                    last_tx = None      # the environment / the peer moved: nothing cached can be expected to know
                     continue
                 m = t[1] if t[1] not in ("get", "set") else t[1] + " " + t[2]
                 if m == "update":
                     fresh = True
+                    last_tx = None
                     continue
                 if m in ("get pipe", "get tx_full", "get irq_dr", "get irq_ds", "get irq_df"):
+                    if not fresh and last_tx in ("read", "clear_status_flags", "flush_rx", "flush_tx") and stale is None:
+                        # "after update() OR ANY OTHER TRANSACTION": the cached accessors right after one of the calls that
+                        # change what they describe (known finding: the cache holds the STATUS byte clocked out BEFORE the
+                        # call's own effect; recorded, not repaired - see known_findings.json)
+                        exp = {"get pipe": (rxf[0].split(":")[0] if rxf else "N"), "get tx_full": "T" if len(txf) >= 3 else "F",
+                               "get irq_dr": "T" if fl & 0x40 else "F", "get irq_ds": "T" if fl & 0x20 else "F",
+                               "get irq_df": "T" if fl & 0x10 else "F"}[m]
+                        if res != exp:
+                            stale = (k, f"right after {last_tx}(), {t[2]} is {res} but the radio's state says {exp} (stale until the "
+                                        "next update())")
                     if fresh:
                         exp = {"get pipe": (rxf[0].split(":")[0] if rxf else "N"), "get tx_full": "T" if len(txf) >= 3 else "F",
                                "get irq_dr": "T" if fl & 0x40 else "F", "get irq_ds": "T" if fl & 0x20 else "F",
@@ -131,6 +147,7 @@ class C10(PropCheck):
                             break
                     continue  # cached accessors do not touch the radio; `fresh` stays
                 fresh = False
+                last_tx = m
                 if m == "available":
                     if res != ("T" if prxf else "F"):
                         what = f"available() is {res} with {len(prxf)} payload(s) in the RX FIFO"
@@ -182,6 +199,8 @@ class C10(PropCheck):
                     break
             if what:
                 out.append(Finding(l, f"op {k} `{name}`: {what}", {"op_index": k}))
+            elif stale:
+                out.append(Finding(l, f"op {stale[0]} `{names[stale[0]]}`: {stale[1]}", {"op_index": stale[0], "class": "stale-status-cache"}))
         return out
 
 
